@@ -548,26 +548,38 @@ def scratch(rep, c, sfx):
                  "primitives may call a matcher on the state's own position")
     movers = set(b["path"] for b in c.bodies if b.get("impl_self") == POSITION and b.get("output") == "bool"
                  and b["inputs"] and b["inputs"][0].startswith("&mut "))
+    # a wrapper is a mover too: `fn match_stack_element(position: &mut Position, ..) -> bool { position.match_string(..) }`
+    wrappers = set()
+    for b in c.bodies:
+        if b.get("output") == "bool" and b.get("body") is not None and not b.get("exp") and b["path"] not in movers \
+                and b.get("inputs") and str(b["inputs"][0]).startswith("&mut pest::position::Position"):
+            pid = b["params"][0].get("id") if b.get("params") and b["params"][0].get("k") == "PBind" else None
+            leaves = [peel(v) for v in hirq.tail_leaves(b["body"])]
+            if pid is not None and leaves and all(kind(v) == "MethodCall" and v.get("path") in movers
+                                                  and hirq.local_id(v["recv"]) == pid for v in leaves):
+                wrappers.add(b["path"])
+    movers = movers | wrappers
     for fn in ps_fns(c):
-        if closure_param_ids(fn) or fn.get("exp"):
+        if closure_param_ids(fn) or fn.get("exp") or fn["path"] in wrappers:
             continue
         ctx = hirq.Ctx(fn)
         multi = False
         for n in walk(fn["body"]):
-            if kind(n) == "MethodCall" and n.get("path") in movers:
+            if (kind(n) == "MethodCall" and n.get("path") in movers) or (kind(n) == "Call" and callee(n) in wrappers and n["args"]):
                 inside = [p for (p, k, i) in ctx.ancestors(n) if kind(p) in ("Loop", "Closure")]
                 if not inside:
                     continue
                 multi = True
-                recv = peel(n["recv"])
+                recv = peel(n["recv"] if kind(n) == "MethodCall" else n["args"][0])
                 on_state = kind(recv) == "Field" and recv["name"] == "position" and "ParserState" in recv.get("bty", "")
-                key = "%s:%s" % (fn["path"].split("::")[-1], n["m"])
-                r.instance(key, where(n), "receiver %s" % hirq.expr_text(n["recv"]))
+                mname = n["m"] if kind(n) == "MethodCall" else callee(n).split("::")[-1]
+                key = "%s:%s" % (fn["path"].split("::")[-1], mname)
+                r.instance(key, where(n), "receiver %s" % hirq.expr_text(recv))
                 if on_state:
                     r.violation(key, where(n),
                                 "%s calls %s on the state's own position inside a loop/iterator: when a later step "
                                 "fails the earlier steps stay consumed, so the primitive moves on failure "
-                                "(restore_on_err only restores the stack)" % (fn["name"], n["m"]))
+                                "(restore_on_err only restores the stack)" % (fn["name"], mname))
         if multi:
             # the scratch copy must be committed only on the success path
             commits = [n for n in walk(fn["body"]) if kind(n) == "Assign" and hirq.field_write_target(n)
@@ -581,6 +593,27 @@ def scratch(rep, c, sfx):
                 if not commit_only_after_success(fn, a, movers):
                     r.violation("%s:commit" % fn["path"].split("::")[-1], where(a), "the scratch position is "
                                 "committed unconditionally")
+
+
+def contradictory(ev):
+    """The event sequence tests one bool local twice with opposite outcomes without assigning it in between (the path
+    enumerator does not correlate conditions on `mut` locals)."""
+    known = {}
+    for e in ev:
+        if e.kind == "assign":
+            known.pop(hirq.local_id(e.node["l"]), None)
+        elif e.kind == "let" and e.node.get("pat") is not None:
+            for (bid, _nm) in hirq.pat_bindings(e.node["pat"]):
+                known.pop(bid, None)
+        elif e.kind == "cond":
+            cnd, truth = peel(e.node), bool(e.extra)
+            while kind(cnd) == "Unary" and cnd.get("op") == "!":
+                cnd, truth = peel(cnd["e"]), not truth
+            if kind(cnd) == "Path" and cnd.get("res") == "local" and cnd.get("ty") == "bool":
+                if cnd["id"] in known and known[cnd["id"]] != truth:
+                    return True
+                known[cnd["id"]] = truth
+    return False
 
 
 def commit_only_after_success(fn, commit, movers):
@@ -597,9 +630,12 @@ def commit_only_after_success(fn, commit, movers):
         ci = hirq.index_of(ev, lambda e: e.kind == "assign" and e.node is commit)
         if ci < 0:
             continue
+        if contradictory(ev[:ci]):
+            continue        # a bool local tested twice with opposite answers and no assignment in between: not a path
         saw = True
         for i, e in enumerate(ev[:ci]):
-            if not (e.kind == "call" and kind(e.node) == "MethodCall" and e.node.get("path") in movers):
+            if not (e.kind == "call" and ((kind(e.node) == "MethodCall" and e.node.get("path") in movers)
+                                          or (kind(e.node) == "Call" and callee(e.node) in movers))):
                 continue
             call = e.node
             ok = False
